@@ -254,6 +254,15 @@ def run_impl(cases):
                     res[int(p[0])] = [int(x) for x in p[1:]]
                 except ValueError:
                     pass
+    # a script that hit the probe's time limit is run once more on its own (a starved machine must not look like a hang)
+    if len(lines) > 1:
+        for i in [i for i, v in res.items() if len(v) >= 4 and v[-4:-2] == [9, 6]][:40]:
+            r2 = sh([bin_path('p_c15')], input=(lines[i] + '\n').encode(), timeout=120)[1].split()
+            if len(r2) > 4 and r2[0].isdigit():
+                try:
+                    res[i] = [int(x) for x in r2[1:]]
+                except ValueError:
+                    pass
     return rc, res, out
 
 
@@ -362,6 +371,11 @@ def run(ctx, only=None):
                 bad_model.append({'ops': ops, 'impl': im, 'model': model[i]})
         ex = expected(NB, NU, strip_env(ops))
         if ex != im and n_viol < 5:
+            # a probe that hit its time limit may have been starved by the machine: the script alone must fail again
+            rc0, r0, _ = run_impl([('again', ops)])
+            if r0.get(0) == ex:
+                ctx.coverage['unconfirmed_on_rerun'] = ctx.coverage.get('unconfirmed_on_rerun', 0) + 1
+                continue
             n_viol += 1
 
             def still_fails(cands):
@@ -419,6 +433,9 @@ def shutdown_probe(ctx):
         ctx.evaluations += 1
         ex = expected(NB, NU, strip_env(ops))
         if ex != impl[i]:
+            rc0, r0, _ = run_impl([('again', ops)])
+            if r0.get(0) == ex:
+                continue
             n_viol += 1
             if n_viol <= 3:
                 clause = clause_of(NB, NU, strip_env(ops), impl[i], ex)
